@@ -79,6 +79,11 @@ fn strategy_long() -> BoxedStrategy<Case> {
   strategy_with(2, 22, 48, 1)
 }
 
+/// very long histories: well over a hundred replacements on few cut points, observers in between
+fn strategy_very_long() -> BoxedStrategy<Case> {
+  strategy_with(3, 190, 280, 1)
+}
+
 fn strategy_with(pool_max: usize, ops_min: usize, ops_max: usize, obs_weight: u32) -> BoxedStrategy<Case> {
   let cfg = inner_cfg();
   (
@@ -192,7 +197,7 @@ impl Prop for C05 {
   type Case = Case;
   const ID: &'static str = "C05";
   fn rule(&self) -> String {
-    "inner source: tree of depth<=1 over Raw*/Original leaves with 1-4 byte UTF-8 text; history of <=12 ops (second leg: 22-48 ops over <=2 cut points): \
+    "inner source: tree of depth<=1 over Raw*/Original leaves with 1-4 byte UTF-8 text; history of <=12 ops (second leg: 22-48 ops over <=2 cut points; third leg: 190-280 ops over <=3 cut points): \
      replace/insert/replace_with_enforce/insert_with_enforce with positions from a pool of <=5 char-boundary cut \
      points or beyond the end (up to u32::MAX), interleaved with 13 kinds of observer and with fork (clone the current object, keep both alive, up to 4) / switch \
      (continue on another live object); after every observer the \
@@ -204,6 +209,7 @@ impl Prop for C05 {
     vec![
       Leg { name: "histories", source: Cases::Generated(Box::new(strategy), 500_000, 6_000_000) },
       Leg { name: "long histories (>20 replacements, colliding keys)", source: Cases::Generated(Box::new(strategy_long), 100_000, 1_500_000) },
+      Leg { name: "very long histories (>128 replacements, colliding keys)", source: Cases::Generated(Box::new(strategy_very_long), 6_000, 80_000) },
     ]
   }
   fn check(&self, case: &Case) -> CheckResult {
@@ -294,6 +300,7 @@ impl Prop for C05 {
         .class(enforce_tie, "equal (start,end), different enforce")
         .class(beyond, "position beyond the end")
         .class(muts.len() > 20, "more than 20 replacements")
+        .class(muts.len() > 128, "more than 128 replacements")
         .class(
           {
             // a clone made, then a mutation, an observation, a switch and another observation
